@@ -14,6 +14,7 @@ import pylife.utils.histogram as HI
 
 from ..sym import sym_and, sym_or, sym_not, s_eq, s_ite, s_max, s_min, SymReal
 from ..util import eq_struct, mutated
+from .. import npfacade
 
 PROPERTY = "C14"
 ENCODED = ["pylife.stress.collective.load_collective:LoadCollective._validate",
@@ -131,6 +132,9 @@ def cases(tier):
     step = 12
     for i in range(0, len(pairs), step):
         out.append({"kind": "rebin", "pairs": pairs[i:i + step], "_weight": 5})
+    # integer-typed counts, target classes cutting through source classes
+    out.append({"kind": "rebin", "ints": True, "_weight": 5,
+                "pairs": [([0.0, 1.0, 2.0], [0.0, 0.5, 4.0]), ([0.0, 2.0, 4.0], [0.0, 1.0, 3.0, 4.0]), ([1.0, 2.0], [0.0, 1.5, 3.0])]})
     for src in bs[:: (3 if q else 1)]:
         out.append({"kind": "rebin_int", "src": src, "_weight": 1})
     # source classes listed in a permuted order (e.g. after sort_values / concat): result must not depend on it
@@ -241,11 +245,17 @@ def _all_close(xs, ys, scale):
     return sym_and(*[_close(a, b, scale) for a, b in zip(xs, ys)])
 
 
-def _hist(ctx, breaks, prefix):
+def _hist(ctx, breaks, prefix, ints=False):
     n = len(breaks) - 1
-    vals = [ctx.real("%s%d" % (prefix, i)) for i in range(n)]
+    vals = [(ctx.int if ints else ctx.real)("%s%d" % (prefix, i)) for i in range(n)]
     for v in vals:
         ctx.assume(v >= 0)      # counts
+    if ints:
+        # whole-number counts in an integer-typed Series (what np.histogram returns); dtype effects show in the concrete
+        # replay of the path witness, so the witness gets odd counts
+        ctx.hint(sym_and(*[v == 3 for v in vals]))
+        col = np.array(vals, dtype=object) if ctx.sym else np.array([int(round(v)) for v in vals], dtype=np.int64)
+        return vals, pd.Series(col, index=pd.IntervalIndex.from_breaks(breaks), name="cycles")
     return vals, pd.Series(_col(ctx, vals), index=pd.IntervalIndex.from_breaks(breaks), name="cycles")
 
 
@@ -271,7 +281,7 @@ def run(ctx, case):
         if kind == "rebin":
             outs = []
             for src, tgt in case["pairs"]:
-                vals, h = _hist(ctx, src, "h")
+                vals, h = _hist(ctx, src, "h", case.get("ints", False))
                 r = HI.rebin_histogram(h, pd.IntervalIndex.from_breaks(tgt))
                 ctx.signature((kind, tuple(src), tuple(tgt)))
                 ctx.claim(len(r) == len(tgt) - 1, "rebin.total")
@@ -280,7 +290,7 @@ def run(ctx, case):
                     ctx.claim(eq_struct(list(r), vals), "rebin.identity", (src, list(r)))
                 outs.append(list(r))
             # the same binning is always part of the family: make sure the identity clause is reached
-            vals, h = _hist(ctx, case["pairs"][0][0], "h")
+            vals, h = _hist(ctx, case["pairs"][0][0], "h", case.get("ints", False))
             r = HI.rebin_histogram(h, h.index)
             ctx.claim(eq_struct(list(r), vals), "rebin.identity", (list(r),))
             return outs
@@ -538,16 +548,21 @@ def _run_hist_recorder(ctx, case):
     m = case["m"]
     if ctx.sym:
         ctx.patch(pd.IntervalIndex, "from_breaks", _concrete_breaks(pd.IntervalIndex.from_breaks))
+        ctx.patch(REC, "np", npfacade.FACADE)
     fr = [ctx.real("f%d" % i) for i in range(m)]
     to = [ctx.real("t%d" % i) for i in range(m)]
     ctx.hint(sym_and(*[sym_and(v >= -8, v <= 8) for v in fr + to]))
     rec = REC.LoopValueRecorder()
     k = (m + 1) // 2
-    rec.record_values(_col(ctx, fr[:k]), _col(ctx, to[:k]))
-    if m > k:
-        rec.record_values(_col(ctx, fr[k:]), _col(ctx, to[k:]))
     ef, et = case["edges_from"], case["edges_to"]
     bins = list(ef) if (ef == et and len(ef) > 2 and case.get("spec") != "pair") else [np.array(ef), np.array(et)]
+    rec.record_values(_col(ctx, fr[:k]), _col(ctx, to[:k]))
+    if m > k:
+        # streaming use: the histogram and the collective are read between two recordings
+        h0 = rec.histogram(bins)
+        _check_hist(ctx, h0, list(zip(fr[:k], to[:k])), ["from", "to"], [list(ef), list(et)], "recorder histogram after the first recording")
+        ctx.claim(len(rec.collective) == k, "hist.total", "collective after the first recording")
+        rec.record_values(_col(ctx, fr[k:]), _col(ctx, to[k:]))
     h = rec.histogram(bins)
     ctx.claim(list(h.index.names) == ["from", "to"], "hist.classes", "level names")
     keys, counts, lims = _check_hist(ctx, h, list(zip(fr, to)), ["from", "to"], [list(ef), list(et)], "recorder histogram")
